@@ -342,7 +342,7 @@ func (a *actor) opShareRound(si int) {
 	for _, id := range ids[:ks.t+a.rng.Intn(ks.n-ks.t+1)] {
 		sub[id] = partials[id]
 	}
-	agg, err := tbls.ThresholdAggregate(sub)
+	agg, err := ckThresholdAggregate(sub)
 	for id := range sub { // the caller recycles its map
 		var junk tbls.Signature
 		a.rng.Read(junk[:])
@@ -482,11 +482,11 @@ func (a *actor) opThresholdAggregate(si int) {
 		if a.rng.Intn(2) == 0 {
 			bad = map[int]tbls.Signature{0: partials[ids[0]], ids[0]: partials[ids[0]]}
 		}
-		_, err := tbls.ThresholdAggregate(bad)
+		_, err := ckThresholdAggregate(bad)
 		a.log("ThresholdAggregate(%s, malformed input) = error:%v", ks.name, err != nil)
 		a.p.r.Count("purity_error_history_calls", 1)
 	}
-	agg, err := tbls.ThresholdAggregate(partials)
+	agg, err := ckThresholdAggregate(partials)
 	a.log("ThresholdAggregate(%s ids %v, len=%d %s) = %s", ks.name, ids, len(v), hx(v[:min(len(v), 6)]), hx(agg[:6]))
 	for id := range partials {
 		var junk tbls.Signature
@@ -516,7 +516,7 @@ func (a *actor) opRecover(si int) {
 		shares[id], pubs[id] = ks.shares[id], ks.pubs[id]
 	}
 	a.p.r.Count("purity_ops/recover", 1)
-	sec, err := tbls.RecoverSecret(shares, uint(ks.n), uint(ks.t))
+	sec, err := ckRecoverSecret(shares, uint(ks.n), uint(ks.t))
 	for id := range shares {
 		var junk tbls.PrivateKey
 		a.rng.Read(junk[:])
@@ -527,7 +527,7 @@ func (a *actor) opRecover(si int) {
 	if err != nil || sec != ks.secret {
 		a.fail("tbls/purity/RecoverSecret/wrong-result", fmt.Sprintf("RecoverSecret of >= t genuine shares: err=%v, equal=%v", err, sec == ks.secret), w)
 	}
-	pub, err := tbls.RecoverPubkey(pubs)
+	pub, err := ckRecoverPubkey(pubs)
 	for id := range pubs {
 		var junk tbls.PublicKey
 		a.rng.Read(junk[:])
@@ -566,7 +566,7 @@ func (a *actor) opSplit(si int) {
 		a.rng.Read(junk[:])
 		sh[id] = junk
 	}
-	sec, err := tbls.RecoverSecret(cp, uint(ks.n), uint(ks.t))
+	sec, err := ckRecoverSecret(cp, uint(ks.n), uint(ks.t))
 	a.log("ThresholdSplit(%s) then RecoverSecret ok=%v", ks.name, err == nil && sec == ks.secret)
 	if err != nil || sec != ks.secret {
 		a.fail("tbls/purity/ThresholdSplit/shares-do-not-recover-secret", fmt.Sprintf("err=%v", err), w)
@@ -593,7 +593,7 @@ func (a *actor) opBLSAggregate(si int) {
 		s := partials[id]
 		args += hx(s[:8])
 	}
-	agg, err := tbls.Aggregate(sigs)
+	agg, err := ckAggregate(sigs)
 	for i := range sigs {
 		a.rng.Read(sigs[i][:])
 	}
@@ -604,7 +604,7 @@ func (a *actor) opBLSAggregate(si int) {
 	}
 	a.remember("Aggregate", ks.name+"|"+hx(v)+"|"+args, agg[:], "tbls/purity/Aggregate/result-depends-on-call-history", w)
 	buf, src := a.load(v)
-	verr := tbls.VerifyAggregate(pubs, agg, buf)
+	verr := ckVerifyAggregate(pubs, agg, buf)
 	a.log("Aggregate+VerifyAggregate(%s, %s len=%d) = %v", ks.name, src, len(v), verr == nil)
 	a.after(buf)
 	if verr != nil {
@@ -613,7 +613,7 @@ func (a *actor) opBLSAggregate(si int) {
 	// a foreign public key in the list must be refused; then the caller recycles the slice
 	oks := a.p.sets[(si+1)%len(a.p.sets)]
 	pubs[a.rng.Intn(len(pubs))] = oks.group
-	if tbls.VerifyAggregate(pubs, agg, append([]byte{}, v...)) == nil {
+	if ckVerifyAggregate(pubs, agg, append([]byte{}, v...)) == nil {
 		a.fail("tbls/purity/VerifyAggregate/accepts-foreign-public-key", "VerifyAggregate accepts although one public key was replaced", w)
 	}
 	for i := range pubs {
